@@ -99,12 +99,12 @@ Definition eirp_prop (p : Q) (o_idx : N) (o_val : outcome Q) : bool :=
   end.
 
 (* ---------- sensitivity ---------- *)
-(* S = -174 + 10 log10(BW) + NF + SNR, checked to +-0.02 dB with integers:
-   y := o + 174 - (nf+snr), m := floor(100 y):  10^(m-1) <= bw^100 <= 10^(m+2) *)
+(* S = -174 + 10 log10(BW) + NF + SNR, checked to +-0.1 dB with integers:
+   y := o + 174 - (nf+snr), m := floor(20 y):  10^(m-1) <= bw^200 <= 10^(m+2)   (bw^200 = 10^(20 * 10 log10 bw)) *)
 Definition sens_prop (bw : Z) (nfsnr o : Q) : bool :=
   let y := (o + 174 - nfsnr)%Q in
-  let m := Qfloor (100 * y) in
-  (0 <? bw) && (1 <=? m) && (10 ^ (m - 1) <=? bw ^ 100) && (bw ^ 100 <=? 10 ^ (m + 2)).
+  let m := Qfloor (20 * y) in
+  (0 <? bw) && (10 ^ (m - 1) <=? bw ^ 200) && (bw ^ 200 <=? 10 ^ (m + 2)).
 
 Definition check (c : case) : N :=
   match c with
